@@ -36,6 +36,8 @@ package sign
 //@   ensures[C20] result1 == nil ==> (v_result != nil && len(messageHash) > 0 && result0 != nil)
 //@   ensures[C20] result1 == nil ==> forall(j, party.ID, inslice(signers, j) ==> indom(v_result.VerificationShares.Points, j))
 //@   loop 1: invariant each(helper.partyIDs[:rangeindex+1], j, indom(v_result.VerificationShares.Points, j))
+// (induction on the session object) the first round starts from the state invariant its methods assume
+//@   ensures result1 == nil ==> (typeis(result0, *round1) && s1ok(result0.(*round1)))
 
 // ---- hedged nonces (C11): the nonce stream is the digest of a hash KEYED with a key derived from the secret share,
 // over (session hash, the whole message, 32 fresh random bytes) in this order; d_i and e_i are the first two unit
@@ -55,6 +57,8 @@ package sign
 //@   assert_at[C11] BroadcastMessage "r.BroadcastMessage(out, &broadcast2{D_i: D_i, E_i: E_i})": typeis(arg2, *broadcast2) && arg2.(*broadcast2).D_i == D_i && arg2.(*broadcast2).E_i == E_i
 //@   assert_at[C11] Write "nonceHasher.Write(r.Hash().Sum())": wlog(arg0) == wempty() && hstate(arg0) == key
 //@   assert_at[C11] Write "nonceHasher.Write(r.Hash().Sum())": bval(arg1) == hsum(hstate(r.Helper.hash))
+// (induction on the session object) on success the next round starts from the state invariant its methods assume
+//@   ensures result1 == nil ==> (typeis(result0, *round2) && s2ok(result0.(*round2)) && result0.(*round2).round1 == r)
 
 // ---- round state invariants and acceptance gates of the signing rounds (C03, C05)
 // (maps are total over the signers once the start function accepted: every signer holds a share)
@@ -96,3 +100,5 @@ package sign
 //@   loop 3: invariant rho != nil && RShares != nil && R != nil && forall(j, party.ID, inslice(r.Helper.partyIDs, j) ==> rho[j] != nil) && each(r.Helper.partyIDs[:rangeindex+1], j, RShares[j] != nil)
 //@   loop 4: invariant RShares != nil && forall(j, party.ID, inslice(r.Helper.partyIDs, j) ==> RShares[j] != nil)
 //@   assert_at[C01] BroadcastMessage "err := r.BroadcastMessage(out, &broadcast3{Z_i: z_i})": typeis(arg2, *broadcast3) && arg2.(*broadcast3).Z_i == z_i
+// (induction on the session object) on success the next round starts from the state invariant its methods assume
+//@   ensures result1 == nil ==> (typeis(result0, *round3) && s3ok(result0.(*round3)) && result0.(*round3).round2 == r)
